@@ -287,6 +287,68 @@ def run_c14_staged(c, ctx):
     return outcome(classes=classes, nontrivial=True, fp='e14s ' + tA + tB, dev=devs, monitors={'edge_programs': 1, 'second_stage_programs': 1}, sample=sample)
 
 
+# ------------------------------------------------------------------------------------------------ C16, bare numbers in conditions
+# The documented example:  energy float = 25 erg / !condition ("23 < {?} && {?} < 26")  - "values in a range of 23 and 26 erg":
+# a bare number in a condition is read in the node's own unit.  Here the same expression also compares {?} with ANOTHER node
+# written in a different unit, before or after the bare-number comparison.
+
+def gen_c16_bare(rng):
+    dim = rng.choice(list(LIN))
+    (u, fu), (u2, f2) = rng.sample(LIN[dim], 2)
+    V = rng.choice([500.0, 20.0, 6.0, 101.0, 0.5, 3000.0])
+    B = rng.choice([100.0, 5.0, 1000.0])
+    other_rel = rng.choice([0.01, 0.5, 2.0, 50.0])          # the other node's value as a multiple of V (physically)
+    return dict(edge='c16-bare', u=u, u2=u2, V=V, B=B, other_rel=other_rel, dt=rng.choice(['float', 'float', 'int']),
+                form=rng.choice(['node-then-bare', 'bare-then-node', 'bare-only', 'docs-range', 'node-then-bare-gt', 'node-left-then-bare']),
+                route=rng.choice(['def', 'def', 'mod-other-unit']))
+
+
+def run_c16_bare(c, ctx):
+    f = {uu: k for d in LIN.values() for uu, k in d}
+    u, u2, V, B = c['u'], c['u2'], float(c['V']), float(c['B'])
+    O = V * f[u] * c['other_rel'] / f[u2]                     # other node, written in u2
+    if c['dt'] == 'int' and (not all(float(z).is_integer() for z in (O, V, B)) or abs(O) > 1e9):
+        c = dict(c, dt='float')
+    num = (lambda z: '%d' % z) if c['dt'] == 'int' else (lambda z: repr(float(z)))
+    if abs(V - B) < 1e-9 * max(V, B) or abs(c['other_rel'] - 1) < 1e-9:
+        return outcome(skip='value on a boundary')
+    gt_other = V * f[u] > O * f[u2]
+    form = c['form']
+    if form == 'node-then-bare':
+        cond, truth = '{?} > {?other} && {?} < %s' % num(B), gt_other and V < B
+    elif form == 'bare-then-node':
+        cond, truth = '{?} < %s && {?} > {?other}' % num(B), gt_other and V < B
+    elif form == 'bare-only':
+        cond, truth = '{?} < %s' % num(B), V < B
+    elif form == 'docs-range':
+        lo = min(B, V) / 2
+        cond, truth = '%s < {?} && {?} < %s' % (num(lo) if c['dt'] == 'float' else num(max(1, int(lo))), num(B)), (lo if c['dt'] == 'float' else max(1, int(lo))) < V < B
+    elif form == 'node-then-bare-gt':
+        cond, truth = '{?} < {?other} && {?} > %s' % num(B), (not gt_other) and V > B
+    else:
+        cond, truth = '{?other} < {?} && {?} < %s' % num(B), gt_other and V < B
+    L = ['other %s = %s %s' % (c['dt'], num(O), u2)]
+    if c['route'] == 'def':
+        L += ['x %s = %s %s' % (c['dt'], num(V), u), '  !condition ("%s")' % cond]
+    else:
+        # the final value arrives through a modification written in the other unit (converted into the node's unit first)
+        Vm = V * f[u] / f[u2]
+        if c['dt'] == 'int' and not float(Vm).is_integer():
+            return outcome(skip='modification value not integral in the other unit')
+        L += ['x %s = %s %s' % (c['dt'], num(V + 1 if V + 1 < B or V > B else V), u), '  !condition ("%s")' % cond, 'x = %s %s' % (num(Vm), u2)]
+        first = V + 1 if V + 1 < B or V > B else V
+    text = '\n'.join(L) + '\n'
+    classes = ['edge:bare-number-in-condition', 'edge:bare-number:' + form, 'edge:bare-number-' + ('accept' if truth else 'reject')]
+    devs = []
+    st, res, keep = parse(ctx, text, 'e16b')
+    if truth and st != 'ok':
+        devs.append(dev('bare-number-condition:satisfied-but-rejected(%s)' % form, dict(text=text, exc=repr(res)[:200])))
+    if not truth and st == 'ok':
+        devs.append(dev('bare-number-condition:violated-but-accepted(%s)' % form, dict(text=text, data=repr(res.data())[:200])))
+    return outcome(classes=classes, nontrivial=True, fp='e16b ' + text, dev=devs, monitors={'edge_programs': 1, 'bare_number_condition_programs': 1},
+                   sample=dict(text=text, expected='accepted' if truth else 'rejected'))
+
+
 # ------------------------------------------------------------------------------------------------ C16
 
 def gen_c16(rng):
